@@ -14,12 +14,13 @@ fn to_float<R: Round, const B: Word>(&self, precision: usize) -> Rounded<FBig<R,
         rd_val(ret).context.precision == precision,
 @*/
 {
+        /*@ hide(ipow); hide(round_val); hide(round_once); hide(round_def);   // only moved around here (the lemmas do the unfolding) @*/
         /*@ broadcast use round_int_axioms, ax_ndigits, fbig_zero_const; @*/
         /*@ let ghost (b, p, N, D) = (B as int, precision as nat, self.numerator.v(), self.denominator.v()); @*/
         assert!(precision > 0);
 
         if self.numerator.is_zero() {
-            /*@ proof { lemma_tf_zero(b, p, D); } @*/
+            /*@ proof { lemma_tf_zero::<B>(R::md(), b, precision, D); } @*/
             return FBig::ZERO.with_precision(precision);
         }
 
@@ -34,7 +35,7 @@ fn to_float<R: Round, const B: Word>(&self, precision: usize) -> Rounded<FBig<R,
         let shift;
         let (q, r) = if num_digits >= precision + den_digits {
             shift = 0;
-            /*@ proof { assert(ipow(b, 0) == 1); assert(N * 1 == N); } @*/
+            /*@ proof { lemma_tf_ipow1(b); assert(N * 1 == N); } @*/
             (&self.numerator).div_rem(&self.denominator)
         } else {
             shift = (precision + den_digits) - num_digits;
@@ -58,12 +59,13 @@ fn to_float<R: Round, const B: Word>(&self, precision: usize) -> Rounded<FBig<R,
             proof { assert(ndigits(b, q0) == p + extra); } @*/
         let (q, r, den) = if extra > 0 {
             let scale = base.pow(extra);
+            /*@ proof { lemma_ipow_pos(b, extra as nat); } @*/
             let (hi, lo) = q.div_rem(&scale);
             /*@ proof { lemma_tf_split(b, p, X, D, q0, r0, extra as nat, hi.v(), lo.v()); } @*/
             (hi, lo * &self.denominator + r, &self.denominator * scale)
         } else {
             /*@ proof {
-                assert(ipow(b, 0) == 1);
+                lemma_tf_ipow1(b);
                 assert(is_trunc_divrem(q0, ipow(b, 0), q0, 0));
                 lemma_tf_split(b, p, X, D, q0, r0, 0, q0, 0);
                 assert(0 * D + r0 == r0);
